@@ -179,3 +179,22 @@ PROPS = {
         trusted=["mongodb-forks/digest: uses the password only inside the MD5 digest response; net/http does not log"],
     ),
 }
+
+# ---- statelessness: every property whose theorems are about the pure line model also depends on the
+# regenerated source facts "no package-level state beyond the option variables and the constant tables"
+# (Props/SrcFacts.lean) and on the session correspondence (many lines under one configuration in one
+# process, model line by line).
+STATE_FACTS = ["Anonymongo.Facts_globals", "Anonymongo.Facts_writes", "Anonymongo.Facts_mapping_write_only",
+               "Anonymongo.Facts_inits", "Anonymongo.Facts_footprint"]
+PURE_MODEL_PROPS = ["C01", "C02", "C03", "C04", "C05", "C06", "C07", "C09", "C10", "C12", "C13", "C14", "C15", "C19"]
+STATE_NOTE = ("; STATE: the model is a pure function of (line, flags) - tied to the source by the regenerated facts "
+              "Facts_globals / Facts_writes / Facts_mapping_write_only / Facts_inits / Facts_footprint (the package-level variables are the operator "
+              "tables, three regular expressions, the option variables - each written by its own setter only - and one write-only side table; no init "
+              "function) and by the session correspondence + history oracle (every line of a session must come out as when processed alone)")
+for _p in PURE_MODEL_PROPS:
+    _s = PROPS[_p]
+    _s["theorems"] = _s["theorems"] + [t for t in STATE_FACTS if t not in _s["theorems"]]
+    _s["extra_modules"] = _s.get("extra_modules", []) + [m for m in ["Anonymongo.Props.SrcFacts"] if m not in _s.get("extra_modules", [])]
+    if "session" not in _s["corr"]:
+        _s["corr"] = _s["corr"] + ["session"]
+    _s["statement"] = _s.get("statement", "") + STATE_NOTE
